@@ -52,6 +52,9 @@ pub trait Env: Send + Sync {
     fn args(&self) -> Option<Vec<String>>;
     /// Must not return.
     fn exit(&self, code: i32) -> !;
+    /// Cooperative scheduling point inside a library call (see `yield_point`). A scheduler may block
+    /// the calling thread here until it is this thread's turn again. Default: proceed.
+    fn yield_point(&self, _site: &'static str) {}
 }
 
 thread_local! {
@@ -70,6 +73,15 @@ pub fn uninstall() {
 
 pub fn current() -> Option<Arc<dyn Env>> {
     ENV.with(|e| e.borrow().clone())
+}
+
+/// Scheduling point: lets an installed `Env` decide which thread proceeds. No-op without one.
+#[inline]
+pub fn yield_point(site: &'static str) {
+    let env = ENV.with(|e| e.borrow().clone());
+    if let Some(env) = env {
+        env.yield_point(site);
+    }
 }
 
 /// Payload with which a simulated `process::exit` unwinds (see `Env::exit`).
